@@ -89,7 +89,8 @@ class Scenario:
                     # ---- a transaction submission
                     kind = rng.choice(['valid', 'valid', 'valid', 'conflict', 'duplicate', 'no-outputs', 'zero-value',
                                        'bad-signature', 'unknown-input', 'spent-input', 'overspend', 'two-inputs',
-                                       'later-input-bad-signature', 'later-input-bad-signature'])
+                                       'later-input-bad-signature', 'later-input-bad-signature', 'conflict-on-later-input',
+                                       'conflict-on-later-input'])
                     avail = sorted(tg.spendable(head))
                     pooled_refs = set()
                     for t in pool_before:
@@ -128,6 +129,13 @@ class Scenario:
                             wrong = [pk for pk in keys.pks if pk not in (a_[1][1], b_[1][1])][0]
                             tx = chaingen.signed_tx(keys, head.utxo, [a_[0], b_[0]], [(a_[1][0] + b_[1][0], keys.pks[1])],
                                                     sign_with={b_[0]: wrong})
+                        elif kind == 'conflict-on-later-input' and pool_before and free:
+                            # several inputs: the first is free, a LATER one is already spent by a pending transaction
+                            t0 = rng.choice(pool_before)
+                            ref = (bytes(t0.inputs[-1].output_reference.hash), t0.inputs[-1].output_reference.index)
+                            if ref in head.utxo:
+                                tx = chaingen.signed_tx(keys, head.utxo, [free[0][0], ref],
+                                                        [(free[0][1][0] + head.utxo[ref][0], keys.pks[5])])
                         elif kind == 'unknown-input':
                             ref = (bytes(rng.getrandbits(8) for _ in range(32)), 0)
                             tx = chaingen.signed_tx(keys, {ref: (9, keys.pks[0])}, [ref], [(9, keys.pks[1])])
@@ -342,6 +350,55 @@ def thread_probes(ck, tier):
                         break
 
 
+def scripted_reorg(ck, tier):
+    """a transaction is admitted, mined, and un-mined again by a fork switch (its inputs are unspent once more, it is no
+    longer pending); then a copy with the same references and outputs but made-up signatures is submitted: refused --
+    what the node remembers about the genuine transaction does not vouch for the copy; the genuine one is admitted again"""
+    from skepticoin.networking import messages as M
+    from skepticoin.signing import SECP256k1Signature
+    from skepticoin.datatypes import Transaction, Input
+    rng = ck.rng
+    keys = chaingen.Keys()
+    for trial in range(2 if tier == 'quick' else 8):
+        with chaingen.Env(period=50) as env:
+            tg = chaingen.TreeGen(env, keys, rng)
+            n = tg.genesis
+            for _ in range(4):
+                n = tg.extend(n, txs=[], fees=0, dt=100)
+            main = list(tg.nodes)
+            with simnet.Net(seed=rng.getrandbits(30), t0=n.view.time + 5000) as net:
+                sn = nodeharness.SingleNode(net, chaingen.impl_state_from(main), [m.block for m in main[1:]], npeers=2)
+                sn.new_messages()
+                av = sorted(tg.spendable(n))
+                k_in = 1 + trial % 2
+                ins = av[:k_in]
+                T = chaingen.signed_tx(keys, n.utxo, [r_ for r_, _ in ins], [(sum(vo[0] for _, vo in ins), keys.pks[1])])
+                sn.deliver(0, M.DataMessage(M.DATA_TRANSACTION, T))
+                b1 = tg.extend(n, txs=[T], fees=0, dt=100)
+                sn.deliver(0, M.DataMessage(M.DATA_BLOCK, b1.block))
+                s1 = tg.extend(n, txs=[], fees=0, dt=101)
+                s2 = tg.extend(s1, txs=[], fees=0, dt=100)
+                for x in (s1, s2):
+                    sn.deliver(1, M.DataMessage(M.DATA_BLOCK, x.block))
+                cm = sn.lp().chain_manager
+                if bytes(cm.coinstate.current_chain_hash) != s2.id or T in cm.transaction_pool:
+                    ck.count('scripted-reorg-skipped')
+                    continue
+                bogus = Transaction(inputs=[Input(i.output_reference, SECP256k1Signature(bytes(rng.getrandbits(8) for _ in range(64))))
+                                            for i in T.inputs], outputs=list(T.outputs))
+                sn.deliver(1, M.DataMessage(M.DATA_TRANSACTION, bogus))
+                ck.case(('scripted-reorg', trial), kind='copy-of-unmined-tx-with-made-up-signatures')
+                rp = {'scripted': 'admit T | mine T | fork switch un-mines T | submit copy of T with made-up signatures', 'trial': trial}
+                if any(spec.sha256d(t.serialize()) == spec.sha256d(bogus.serialize()) for t in cm.transaction_pool):
+                    ck.violation('invalid-tx-admitted', 'a copy of an earlier validated (mined, then un-mined) transaction carrying '
+                                 'made-up signatures was admitted to the pool', dict(rp, kind='poolinv'))
+                sn.deliver(0, M.DataMessage(M.DATA_TRANSACTION, T))
+                if T not in cm.transaction_pool and not any(spec.sha256d(t.serialize()) == spec.sha256d(T.serialize()) for t in cm.transaction_pool):
+                    if not any(nodeharness.tx_conflict(T, t) for t in cm.transaction_pool):
+                        ck.violation('valid-tx-refused', 'the genuine transaction, valid again at the head after the fork switch, is '
+                                     'refused', dict(rp, kind='poolinv'))
+
+
 def run(tier, seed):
     ck = common.Check('C13', tier, seed)
     ck.rule = ('one real node (ChainManager, handlers, real store) with scripted peers; random interleavings of transaction '
@@ -371,6 +428,13 @@ def run(tier, seed):
                 continue
             reqs.append(req)
             obs.append(observed)
+    try:
+        scripted_reorg(ck, tier)
+    except Exception:
+        import traceback
+        tb = traceback.format_exc()
+        if 'could not mine a block' not in tb:
+            ck.disagree('scripted reorg scenario crashed: %s' % tb[-500:], {})
     try:
         thread_probes(ck, tier)
     except Exception:
